@@ -145,6 +145,53 @@ def fn_def(path, qualname, inputs, lean_name, consts=None, funcs=None, pick_retu
     return f"def {lean_name} ({args} : R) : R :=\n{py2lean.indent(text)}\n"
 
 
+class TrSel(py2lean.TrFn):
+    """py2lean.TrFn (3-vectors as scalar components, np.cross, np.linalg.norm, np.sign, `v[k]`) + `a @ b` of two 3-vectors"""
+
+    def expr(self, e):
+        if isinstance(e, ast.BinOp) and isinstance(e.op, ast.MatMult):
+            a, b = self.vec_of(e.left), self.vec_of(e.right)
+            if a is None or b is None or len(a) != len(b):
+                raise py2lean.Untranslatable("@ of non-vectors")
+            return "(" + " + ".join(f"({x} * {y})" for x, y in zip(a, b)) + ")"
+        return super().expr(e)
+
+
+def dtheta_def(path):
+    """the head of `_lambert` — norms, cross product, transfer angle and the direction / way selection, every statement
+    before the first assignment of `A` — as `def lamDthetaSrc (r0x … r1z : R) (prograde : Bool) : R`"""
+    fn = py2lean.find_function(ast.parse(open(path).read()), "_lambert")
+    stmts = [s for s in fn.body if not (isinstance(s, ast.Expr) and isinstance(s.value, ast.Constant))]
+    cut = next((k for k, s in enumerate(stmts) if isinstance(s, ast.Assign) and any(isinstance(t, ast.Name) and t.id == "A" for t in s.targets)), None)
+    if cut is None:
+        raise py2lean.Untranslatable("_lambert: no assignment of A")
+    tr = TrSel()
+    tr.vecs = {"r0": ["r0x", "r0y", "r0z"], "r1": ["r1x", "r1y", "r1z"]}
+    tr.defined.add("prograde")
+    body = tr.stmts(stmts[:cut] + [ast.Return(value=ast.Name(id="dtheta", ctx=ast.Load()))])
+    return f"def lamDthetaSrc (r0x r0y r0z r1x r1y r1z : R) (prograde : Bool) : R :=\n{py2lean.indent(body)}\n"
+
+
+def accessor_stmts(path, cls, name):
+    """source text of the statements of the getter and of the setter of property `cls.name` (docstrings dropped)"""
+    tree = ast.parse(open(path).read())
+    c = next(n for n in tree.body if isinstance(n, ast.ClassDef) and n.name == cls)
+    get, set_ = [], []
+    for f in c.body:
+        if isinstance(f, ast.FunctionDef) and f.name == name:
+            body = [ast.unparse(s) for s in f.body if not (isinstance(s, ast.Expr) and isinstance(s.value, ast.Constant))]
+            deco = [ast.unparse(d) for d in f.decorator_list]
+            if "property" in deco:
+                get = body
+            elif f"{name}.setter" in deco:
+                set_ = body
+    return get, set_
+
+
+def lean_strs(xs):
+    return "[" + ", ".join('"' + x.replace("\\", "\\\\").replace('"', '\\"').replace("\n", "\\n") + '"' for x in xs) + "]"
+
+
 def extract(ctx):
     ch = []
     L = src("utils", "lambert.py")
@@ -157,6 +204,7 @@ def extract(ctx):
         fn_def(L, "_dF", ["nr0", "nr1", "A", "z"], "lamDF", funcs=lf),
         py2lean.translate_slice(L, "_lambert", ["nr0", "nr1", "dtheta"], ["A"], "lamA"),
         py2lean.translate_slice(L, "_lambert", ["nr0", "nr1", "A", "z", "mu"], ["f", "g", "gdot"], "lamFG", funcs=lf),
+        dtheta_def(L),
     ])
     ch += py2lean.instantiate(core.LEAN, "LambertFn", body, "beyond/utils/lambert.py")
     E = {"Earth.mu": "mu", "Earth.r": "re", "Earth.J2": "j2"}
@@ -167,6 +215,10 @@ def extract(ctx):
         fn_def(P, "sso", ["a", "i"], "ssoE", consts=E, pick_return=2, extra_inputs=["mu", "re", "j2"]),
         py2lean.translate_slice(src("propagators", "j2.py"), "J2.propagate", ["n", "re", "a", "e", "i", "j2"], ["dΩ"], "j2NodeRate", consts={"Earth.J2": "j2"}),
         fn_def(src("orbits", "statevector.py"), "Infos.n", [], "meanMotion", consts={"self.mu": "mu", "self.kep.a": "a"}, extra_inputs=["mu", "a"]),
+        py2lean.translate_slice(src("propagators", "j2.py"), "J2.propagate", ["n", "re", "a", "e", "i", "j2"], ["dΩ", "dω", "dM"], "j2Rates", consts={"Earth.J2": "j2"}),
+        "/-- the statements of the getter / setter of `J2.orbit`, as text (what the propagator keeps between two calls) -/\n"
+        "def j2OrbitGetter : List String := " + lean_strs(accessor_stmts(src("propagators", "j2.py"), "J2", "orbit")[0]) + "\n\n"
+        "def j2OrbitSetter : List String := " + lean_strs(accessor_stmts(src("propagators", "j2.py"), "J2", "orbit")[1]) + "\n",
     ])
     ch += py2lean.instantiate(core.LEAN, "LeoFn", body, "beyond/utils/leo.py, beyond/propagators/j2.py, beyond/orbits/statevector.py (Infos.n)")
     T = src("utils", "ltan.py")
@@ -209,15 +261,33 @@ def kepler_uv(r0, v0, dt, mu):
     vr0 = float(r0 @ v0) / nr0
     alpha = 2 / nr0 - float(v0 @ v0) / mu
     sm = math.sqrt(mu)
-    chi = sm * abs(alpha) * dt
-    for _ in range(300):
+
+    def FdF(chi):
         z = alpha * chi * chi
         C, S = stumpff(z)
-        F = nr0 * vr0 / sm * chi ** 2 * C + (1 - alpha * nr0) * chi ** 3 * S + nr0 * chi - sm * dt
-        dF = nr0 * vr0 / sm * chi * (1 - alpha * chi ** 2 * S) + (1 - alpha * nr0) * chi ** 2 * C + nr0
-        d = F / dF
-        chi -= d
-        if abs(d) < 1e-12 * max(1.0, abs(chi)):
+        return (nr0 * vr0 / sm * chi ** 2 * C + (1 - alpha * nr0) * chi ** 3 * S + nr0 * chi - sm * dt,
+                nr0 * vr0 / sm * chi * (1 - alpha * chi ** 2 * S) + (1 - alpha * nr0) * chi ** 2 * C + nr0)
+
+    # F is increasing in chi (dF/dchi = r > 0), F(0) = -sqrt(mu) dt <= 0: bracket the root, then Newton kept inside the
+    # bracket (bisection otherwise) - near-rectilinear ellipses make the plain Newton iteration diverge
+    lo, hi = 0.0, max(sm * abs(alpha) * dt, 1.0)
+    for _ in range(200):
+        if FdF(hi)[0] >= 0:
+            break
+        lo, hi = hi, 2 * hi
+    chi = min(max(sm * abs(alpha) * dt, lo), hi)
+    for _ in range(300):
+        F, dF = FdF(chi)
+        if F < 0:
+            lo = chi
+        else:
+            hi = chi
+        new = chi - F / dF if dF > 0 else None
+        if new is None or not lo <= new <= hi:
+            new = (lo + hi) / 2
+        d = new - chi
+        chi = new
+        if abs(d) < 1e-13 * max(1.0, abs(chi)):
             break
     z = alpha * chi * chi
     C, S = stumpff(z)
